@@ -184,7 +184,7 @@ class C16(CheckBase):
             k = ch.weighted([(5, "write"), (2, "touch"), (1, "delete"),
                              (7, "render"), (3, "names"), (3, "use"),
                              (2, "ctype"), (4, "load"), (1, "absload"),
-                             (1, "pkgload")], "op")
+                             (1, "pkgload"), (1, "retarget")], "op")
             dt = ch.weighted([(3, 1.0), (2, 0.0), (2, 0.001), (1, 3600.0),
                               (1, -5.0), (1, 86400.0 * 400), (1, -0.001)],
                              "dt")
@@ -214,6 +214,11 @@ class C16(CheckBase):
                                                    "names", "none"]),
                             ch.weighted([(4, None), (1, "text"),
                                          (1, "xml")])])
+            elif k == "retarget":
+                # assign template.filename: the object must follow the
+                # other file from now on
+                ops.append(["retarget", ch.choose(len(objects)),
+                            ch.pick(all_paths)])
             elif k == "pkgload":
                 ops.append(["pkgload", ch.pick([
                     "chameleon.tests:inputs/hello_world.pt",
@@ -346,6 +351,8 @@ class C16(CheckBase):
                 auto_reload=case["auto_reload"],
                 formats={"xml": self.CountingFile,
                          "text": self.CountingText})
+        caller_path = next((p_ for p_, v_ in case["files"].items()
+                            if v_.get("callee")), None)
         loaded: dict[str, Obj] = {}           # spec -> model object
         loaded_pkg: dict[str, object] = {}
 
@@ -585,6 +592,21 @@ class C16(CheckBase):
                         real.remove(full(op[1]))
                     del fsm[op[1]]
                 log.add("op", i, "delete", op[1])
+                continue
+            if k == "retarget":
+                ob = objs[op[1]]
+                cur = fsm.get(ob.path)
+                if ob.children or ob.tainted or op[2] == caller_path or \
+                        ob.path == caller_path:
+                    log.add("op", i, "retarget-skipped")
+                    continue
+                with world.as_proc(server):
+                    ob.real.filename = full(op[2])
+                ob.path = op[2]
+                ob.seen = None
+                ob.version = None
+                cover.add("retarget")
+                log.add("op", i, "retarget", op[1], op[2])
                 continue
             if k == "pkgload":
                 # package-relative specs (read-only: the repository's own
@@ -834,7 +856,8 @@ class C16(CheckBase):
             yield d
         for oi in range(len(c["objects"]) - 1, -1, -1):
             if len(c["objects"]) > 1 and not any(
-                    o[0] in ("render", "names", "ctype", "use") and o[1] >= oi
+                    o[0] in ("render", "names", "ctype", "use", "retarget")
+                    and o[1] >= oi
                     for o in c["ops"]):
                 d = copy.deepcopy(c)
                 del d["objects"][oi]
